@@ -191,6 +191,10 @@ def new_pipeline(data_tokens, prog):
     return src, st, sink
 
 
+def _contains(objs, e):
+    return any(x is e or (isinstance(x, list) and _contains(x, e)) for x in objs)
+
+
 def run_iter(data_tokens, prog, want_pulls=True):
     """Consume by explicit next() calls; returns (constructed_clean, outputs, raised, pulls_after_k, raised_obj_is_source)"""
     src, st, _ = new_pipeline(data_tokens, prog)
@@ -209,8 +213,8 @@ def run_iter(data_tokens, prog, want_pulls=True):
             out.append(enc(v))
     except Exception as e:
         raised = enc(e)
-        if raised in ('V', 'K'):
-            same = any(e is x for x in src.data)
+        if raised in ('V', 'K'):  # filter_exceptions raises the very object that travelled in the stream
+            same = _contains(src.data, e)
     finally:
         close = getattr(it, 'close', None)
         if close is not None:
@@ -305,6 +309,7 @@ def _run_cases(job, under_sched):
     from mbt import detsched
     res = {'n_cases': 0, 'n_threaded': 0, 'mismatches': [], 'perms': [], 'hangs': [], 'n_exec': 0, 'canaries': []}
     watch = _Watch()
+    seen = {}
 
     def body():
         for item in job['items']:
@@ -342,7 +347,10 @@ def _run_cases(job, under_sched):
                 elif item.get('canary'):
                     res['canaries'].append(bad['what'])
                 else:
-                    if len(res['mismatches']) < 50:
+                    # at most 3 examples per (kind, operator sequence): one flood must not hide another disagreement
+                    key = bad['what'] + ':' + ','.join(p[0] + ('/elist' if 'elist' in p[1:3] else '') for p in case[1])
+                    seen[key] = seen.get(key, 0) + 1
+                    if seen[key] <= 3 and len(res['mismatches']) < 300:
                         res['mismatches'].append({'case': case, 'src': [alphabet[i - 1] for i in case[0]], **bad})
             if item.get('canary'):
                 res['canary_items'] = res.get('canary_items', 0) + len(item['lines'])
@@ -412,18 +420,22 @@ def _run_random(job, under_sched):
     res = {'recorded': [], 'hangs': [], 'n_exec': 0}
     for item in job['items']:
         rnd = random.Random(item['seed'])
-        for c in range(item['count']):
-            has_shuffle = rnd.random() < 0.2
-            n = rnd.randint(0, 5 if has_shuffle else item.get('max_len', 8))
-            data = [rnd.choice(BIG_ALPHABET) for _ in range(n)]
-            prog = gen_program(rnd, rnd.randint(1, item.get('max_depth', 6)), n)
-            if not has_shuffle:
-                prog = [d if d[0] != 'shuffle' else ['peek', '', '', 0] for d in prog]
-            elif any(d[0] == 'shuffle' for d in prog):
-                # keep the element count at the shuffle small: no unbatch before it
-                k = [d[0] for d in prog].index('shuffle')
-                prog = [d if (i >= k or d[0] != 'unbatch') else ['peek', '', '', 0] for i, d in enumerate(prog)]
-            mode = rnd.choice(['iter', 'iter', 'collect', 'drain'])
+        explicit = item.get('explicit')  # replay of recorded executions: [{'src', 'prog', 'mode'}]
+        for c in range(len(explicit) if explicit is not None else item['count']):
+            if explicit is not None:
+                data, prog, mode = explicit[c]['src'], explicit[c]['prog'], explicit[c]['mode']
+            else:
+                has_shuffle = rnd.random() < 0.2
+                n = rnd.randint(0, 5 if has_shuffle else item.get('max_len', 8))
+                data = [rnd.choice(BIG_ALPHABET) for _ in range(n)]
+                prog = gen_program(rnd, rnd.randint(1, item.get('max_depth', 6)), n)
+                if not has_shuffle:
+                    prog = [d if d[0] != 'shuffle' else ['peek', '', '', 0] for d in prog]
+                elif any(d[0] == 'shuffle' for d in prog):
+                    # keep the element count at the shuffle small: no unbatch before it
+                    k = [d[0] for d in prog].index('shuffle')
+                    prog = [d if (i >= k or d[0] != 'unbatch') else ['peek', '', '', 0] for i, d in enumerate(prog)]
+                mode = rnd.choice(['iter', 'iter', 'collect', 'drain'])
 
             def one():
                 if mode == 'iter':
